@@ -73,6 +73,7 @@ fn rand_item(rng: &mut Rng, len: usize) -> Item {
         hint: *rng.pick(&Hint::ALL),
         src: rand_src(rng),
         dup_of: None,
+        cat_of: None,
     }
 }
 
@@ -101,11 +102,11 @@ pub fn gen(seed: u64, tier: Tier, k: u64) -> Value {
             let hint = *rng.pick(&Hint::ALL);
             let len = *rng.pick(&[0usize, 1, 3]);
             for _ in 0..n {
-                items.push(Item { len, ent: Ent::Low4, hint, src: Src::Mem, dup_of: None });
+                items.push(Item { len, ent: Ent::Low4, hint, src: Src::Mem, dup_of: None, cat_of: None });
             }
             if len == 0 {
                 // a non-empty item at the very end lands after the split
-                items.push(Item { len: 5, ent: Ent::Low4, hint, src: Src::Mem, dup_of: None });
+                items.push(Item { len: 5, ent: Ent::Low4, hint, src: Src::Mem, dup_of: None, cat_of: None });
             }
             cached = false;
         }
@@ -114,7 +115,7 @@ pub fn gen(seed: u64, tier: Tier, k: u64) -> Value {
             let n = *rng.pick(&[8190usize, 8200]);
             for i in 0..n {
                 let hint = if i % 2 == 0 { Hint::Yes } else { Hint::No };
-                items.push(Item { len: 1 + (i % 3), ent: Ent::Low4, hint, src: Src::Mem, dup_of: None });
+                items.push(Item { len: 1 + (i % 3), ent: Ent::Low4, hint, src: Src::Mem, dup_of: None, cat_of: None });
             }
             cached = false;
             if comp == Comp::None {
@@ -132,7 +133,7 @@ pub fn gen(seed: u64, tier: Tier, k: u64) -> Value {
             let n = rng.range(3, 7);
             for _ in 0..n {
                 let len = rng.range((mb) as u64, (5 * mb / 2) as u64) as usize;
-                items.push(Item { len, ent: Ent::Low4, hint: Hint::Yes, src: rand_src(&mut rng), dup_of: None });
+                items.push(Item { len, ent: Ent::Low4, hint: Hint::Yes, src: rand_src(&mut rng), dup_of: None, cat_of: None });
                 if rng.chance(1, 2) {
                     let l = *rng.pick(&LEN_BOUNDARIES);
                     items.push(rand_item(&mut rng, l));
@@ -146,8 +147,8 @@ pub fn gen(seed: u64, tier: Tier, k: u64) -> Value {
             }
             items.push(rand_item(&mut rng, 10));
             let len = 4 * mb + *rng.pick(&[0usize, 1, 4096, 3 * mb]);
-            items.push(Item { len, ent: Ent::Low4, hint: Hint::Yes, src: rand_src(&mut rng), dup_of: None });
-            items.push(Item { len: 4 * mb - 1, ent: Ent::Mid6, hint: Hint::Detect, src: Src::Mem, dup_of: None });
+            items.push(Item { len, ent: Ent::Low4, hint: Hint::Yes, src: rand_src(&mut rng), dup_of: None, cat_of: None });
+            items.push(Item { len: 4 * mb - 1, ent: Ent::Mid6, hint: Hint::Detect, src: Src::Mem, dup_of: None, cat_of: None });
             items.push(rand_item(&mut rng, 77));
         }
         5 => {
@@ -161,12 +162,12 @@ pub fn gen(seed: u64, tier: Tier, k: u64) -> Value {
             let total = (target as i64 + delta) as usize;
             let first = total / 3;
             for len in [first, total - first - 1, 1] {
-                items.push(Item { len, ent: Ent::High, hint: Hint::No, src: Src::Mem, dup_of: None });
+                items.push(Item { len, ent: Ent::High, hint: Hint::No, src: Src::Mem, dup_of: None, cat_of: None });
             }
             // same for a compressed cluster (data size is the uncompressed size)
             if total <= (1 << 16) + 1 {
                 for len in [first, total - first - 1, 1] {
-                    items.push(Item { len, ent: Ent::Low4, hint: Hint::Yes, src: Src::Mem, dup_of: None });
+                    items.push(Item { len, ent: Ent::Low4, hint: Hint::Yes, src: Src::Mem, dup_of: None, cat_of: None });
                 }
             }
         }
@@ -177,23 +178,23 @@ pub fn gen(seed: u64, tier: Tier, k: u64) -> Value {
             for h in hints {
                 match pattern {
                     0 => {
-                        items.push(Item { len: 0, ent: Ent::High, hint: h, src: Src::Mem, dup_of: None });
-                        items.push(Item { len: 9, ent: Ent::High, hint: h, src: Src::Mem, dup_of: None });
+                        items.push(Item { len: 0, ent: Ent::High, hint: h, src: Src::Mem, dup_of: None, cat_of: None });
+                        items.push(Item { len: 9, ent: Ent::High, hint: h, src: Src::Mem, dup_of: None, cat_of: None });
                     }
                     1 => {
-                        items.push(Item { len: 9, ent: Ent::Low4, hint: h, src: Src::File, dup_of: None });
+                        items.push(Item { len: 9, ent: Ent::Low4, hint: h, src: Src::File, dup_of: None, cat_of: None });
                         for _ in 0..3 {
-                            items.push(Item { len: 0, ent: Ent::Low4, hint: h, src: rand_src(&mut rng), dup_of: None });
+                            items.push(Item { len: 0, ent: Ent::Low4, hint: h, src: rand_src(&mut rng), dup_of: None, cat_of: None });
                         }
-                        items.push(Item { len: 300, ent: Ent::Low4, hint: h, src: Src::Mem, dup_of: None });
+                        items.push(Item { len: 300, ent: Ent::Low4, hint: h, src: Src::Mem, dup_of: None, cat_of: None });
                     }
                     2 => {
-                        items.push(Item { len: 70000, ent: Ent::Low4, hint: h, src: Src::Mem, dup_of: None });
-                        items.push(Item { len: 0, ent: Ent::Low4, hint: h, src: Src::Mem, dup_of: None });
+                        items.push(Item { len: 70000, ent: Ent::Low4, hint: h, src: Src::Mem, dup_of: None, cat_of: None });
+                        items.push(Item { len: 0, ent: Ent::Low4, hint: h, src: Src::Mem, dup_of: None, cat_of: None });
                     }
                     _ => {
                         for _ in 0..4 {
-                            items.push(Item { len: 0, ent: Ent::Zero, hint: h, src: Src::Mem, dup_of: None });
+                            items.push(Item { len: 0, ent: Ent::Zero, hint: h, src: Src::Mem, dup_of: None, cat_of: None });
                         }
                     }
                 }
@@ -224,6 +225,13 @@ pub fn gen(seed: u64, tier: Tier, k: u64) -> Value {
             let mut extra = rand_item(&mut rng, 33);
             extra.dup_of = None;
             items.push(extra);
+            // contents whose bytes are the concatenation of two contents inserted one after the other: (big, next) and
+            // (small, next). The key of a content must depend on its own bytes only, not on what was inserted before it.
+            for (a, b) in [(3usize, 4usize), (0, 2)] {
+                let mut it = rand_item(&mut rng, items[a].len + items[b].len);
+                it.cat_of = Some((a, b));
+                items.push(it);
+            }
         }
         8 => {
             // `Detect` on both sides of the 6.0 bit threshold, from every source kind (rewind after sniffing)
@@ -232,7 +240,7 @@ pub fn gen(seed: u64, tier: Tier, k: u64) -> Value {
             }
             for ent in [Ent::Zero, Ent::Low4, Ent::Mid6, Ent::Mid7, Ent::High] {
                 for len in [100usize, 4096, 4097, 10_000] {
-                    items.push(Item { len, ent, hint: Hint::Detect, src: rand_src(&mut rng), dup_of: None });
+                    items.push(Item { len, ent, hint: Hint::Detect, src: rand_src(&mut rng), dup_of: None, cat_of: None });
                 }
             }
         }
@@ -245,7 +253,7 @@ pub fn gen(seed: u64, tier: Tier, k: u64) -> Value {
                 } else {
                     Src::Range { before: rng.range(1, 9000) as usize, after: rng.range(0, 9000) as usize }
                 };
-                items.push(Item { len, ent: *rng.pick(&Ent::ALL), hint: *rng.pick(&Hint::ALL), src, dup_of: None });
+                items.push(Item { len, ent: *rng.pick(&Ent::ALL), hint: *rng.pick(&Hint::ALL), src, dup_of: None, cat_of: None });
             }
         }
         10 => {
@@ -284,7 +292,7 @@ pub fn gen(seed: u64, tier: Tier, k: u64) -> Value {
     }
     if tier == Tier::Thorough && shape == 13 && rng.chance(1, 40) {
         // > 16 MiB single compressed content: 4-byte offsets in a compressed cluster
-        items.push(Item { len: (1 << 24) + 5, ent: Ent::Low4, hint: Hint::Yes, src: Src::Mem, dup_of: None });
+        items.push(Item { len: (1 << 24) + 5, ent: Ent::Low4, hint: Hint::Yes, src: Src::Mem, dup_of: None, cat_of: None });
         if let Comp::Lzma(_) = comp {
             comp = Comp::Zstd(1);
         }
@@ -434,7 +442,7 @@ pub fn fingerprint(case: &ContentCase, pkg: Pkg, out: &mut CaseOut) {
     let mut last = String::new();
     let mut runs = 0u64;
     for it in &case.items {
-        let cls = format!("{}{}{}{}", len_class(it.len), it.hint.as_str(), it.src.class(), it.dup_of.is_some());
+        let cls = format!("{}{}{}{}", len_class(it.len), it.hint.as_str(), it.src.class(), if it.cat_of.is_some() { "cat".to_string() } else { it.dup_of.is_some().to_string() });
         if cls != last {
             fp.s(&cls);
             last = cls;
